@@ -629,73 +629,73 @@ func c08CandidatesFlushed(c *core.Ctx) {
 func c08BitCaskPut(c *core.Ctx, oe *orderEngine) {
 	const st = "store"
 	const ldb = "store/leveldb"
-		fn := c.Fn(st + ".BitCask.Put")
-		caf := c.Method(st+".BitCask", "checkAndFlush")
-		setPos := c.FuncObj(ldb + ".SetPos")
-		setCur := c.FuncObj(ldb + ".SetCurrentPos")
-		curOff := c.FieldVar(st+".BitCask", "CurOffset")
-		fl := oe.performs(fn, 2, 1, true, caf)
-		sp := oe.performs(fn, 2, 1, true, setPos)
-		sc := oe.performs(fn, 2, 1, true, setCur)
-		oe.afterSites("BitCask.Put:checkAndFlush≺SetPos", callsTo("checkAndFlush", caf), "leveldb.SetPos", sp)
-		oe.afterSites("BitCask.Put:SetPos≺SetCurrentPos", callsTo("SetPos", setPos), "leveldb.SetCurrentPos", sc)
-		sts := storesToDeep(fn, curOff)
-		oe.after("BitCask.Put:SetPos≺CurOffset+=", callsTo("SetPos", setPos), "the advance of BitCask.CurOffset", toInstrs(sts))
-		if len(fl) == 1 && len(sp) == 1 && len(sc) == 1 {
-			var length ssa.Value
-			if fl[0].call.Parent() == fn {
-				length = core.ResultValues(fl[0].call)[0]
-			}
-			ok := len(sts) >= 1
-			for _, s := range sts {
-				sl := core.Slice(s.Val)
-				if length == nil || !sl[length] || !core.SliceHasField(sl, curOff) || !core.SliceHasOp(sl, token.ADD) {
-					ok = false
-				}
-			}
-			c.Check("BitCask.Put:CurOffset+=flushed-length", "value-flow", ok, fn.Pos(), "the bitcask cursor advances by the length checkAndFlush reported")
-			// the position stored in the index is computed from the cursor the record was flushed at, for the same (flag, key)
-			pos := sp[0].sliceAlong(argN(sp[0].call, 3))
-			ok = core.SliceHasField(pos, curOff) && core.SliceHasField(pos, c.FieldVar(st+".BitCask", "CurIndex")) &&
-				len(fn.Params) == 4 && sp[0].sliceAlong(argN(sp[0].call, 1))[fn.Params[1]] && sp[0].sliceAlong(argN(sp[0].call, 2))[fn.Params[2]]
-			c.Check("BitCask.Put:SetPos(flag,key,CurOffset|CurIndex)", "value-flow", ok, sp[0].call.Pos(), "the index entry of (flag, key) is the bitcask cursor (offset | file index) the record was flushed at")
-			// ... read AFTER checkAndFlush: that call rolls over to the next data file when the current one is full (it writes CurOffset and
-			// CurIndex); a position computed before it points into the old file for the one record that triggered the roll-over
-			okAfter := true
-			nLd := 0
-			for v := range pos {
-				ld, isLd := v.(*ssa.UnOp)
-				if !isLd || ld.Op != token.MUL {
-					continue
-				}
-				if f := core.FieldOf(ld.X); f == curOff || f == c.FieldVar(st+".BitCask", "CurIndex") {
-					nLd++
-					if ld.Parent() == fl[0].call.Parent() && !core.Dominates(fl[0].call, ld) {
-						okAfter = false
-					}
-				}
-			}
-			c.Check("BitCask.Put:cursor-read-after-checkAndFlush", "order", okAfter && nLd >= 2, sp[0].call.Pos(), "the cursor fields that make up the index position are loaded after checkAndFlush returned")
-			cur := sc[0].sliceAlong(argN(sc[0].call, 2))
-			c.Check("BitCask.Put:SetCurrentPos(CurOffset|CurIndex)", "value-flow", core.SliceHasField(cur, curOff), sc[0].call.Pos(), "the persisted cursor is computed from BitCask.CurOffset")
+	fn := c.Fn(st + ".BitCask.Put")
+	caf := c.Method(st+".BitCask", "checkAndFlush")
+	setPos := c.FuncObj(ldb + ".SetPos")
+	setCur := c.FuncObj(ldb + ".SetCurrentPos")
+	curOff := c.FieldVar(st+".BitCask", "CurOffset")
+	fl := oe.performs(fn, 2, 1, true, caf)
+	sp := oe.performs(fn, 2, 1, true, setPos)
+	sc := oe.performs(fn, 2, 1, true, setCur)
+	oe.afterSites("BitCask.Put:checkAndFlush≺SetPos", callsTo("checkAndFlush", caf), "leveldb.SetPos", sp)
+	oe.afterSites("BitCask.Put:SetPos≺SetCurrentPos", callsTo("SetPos", setPos), "leveldb.SetCurrentPos", sc)
+	sts := storesToDeep(fn, curOff)
+	oe.after("BitCask.Put:SetPos≺CurOffset+=", callsTo("SetPos", setPos), "the advance of BitCask.CurOffset", toInstrs(sts))
+	if len(fl) == 1 && len(sp) == 1 && len(sc) == 1 {
+		var length ssa.Value
+		if fl[0].call.Parent() == fn {
+			length = core.ResultValues(fl[0].call)[0]
 		}
-		// checkAndFlush: flush heeded, at the cursor, length handed back
-		cf := c.Fn(st + ".BitCask.checkAndFlush")
-		flushObj := c.FuncObj(st + ".FileUtilsFlush")
-		ff := heeded(c, cf, flushObj, core.ErrNonNil, 1, nil)
-		if len(ff) == 1 {
-			length := core.ResultValues(ff[0])[0]
-			ok := core.SliceHasField(core.Slice(argN(ff[0], 1)), curOff) && len(cf.Params) == 2 && core.Slice(argN(ff[0], 2))[cf.Params[1]]
-			for _, r := range realReturns(cf) {
-				if core.ClassifyReturn(r, nil, nil) != core.RetFailure && (length == nil || !core.Derived(length)[core.RetVal(r, 0)]) {
-					ok = false
+		ok := len(sts) >= 1
+		for _, s := range sts {
+			sl := core.Slice(s.Val)
+			if length == nil || !sl[length] || !core.SliceHasField(sl, curOff) || !core.SliceHasOp(sl, token.ADD) {
+				ok = false
+			}
+		}
+		c.Check("BitCask.Put:CurOffset+=flushed-length", "value-flow", ok, fn.Pos(), "the bitcask cursor advances by the length checkAndFlush reported")
+		// the position stored in the index is computed from the cursor the record was flushed at, for the same (flag, key)
+		pos := sp[0].sliceAlong(argN(sp[0].call, 3))
+		ok = core.SliceHasField(pos, curOff) && core.SliceHasField(pos, c.FieldVar(st+".BitCask", "CurIndex")) &&
+			len(fn.Params) == 4 && sp[0].sliceAlong(argN(sp[0].call, 1))[fn.Params[1]] && sp[0].sliceAlong(argN(sp[0].call, 2))[fn.Params[2]]
+		c.Check("BitCask.Put:SetPos(flag,key,CurOffset|CurIndex)", "value-flow", ok, sp[0].call.Pos(), "the index entry of (flag, key) is the bitcask cursor (offset | file index) the record was flushed at")
+		// ... read AFTER checkAndFlush: that call rolls over to the next data file when the current one is full (it writes CurOffset and
+		// CurIndex); a position computed before it points into the old file for the one record that triggered the roll-over
+		okAfter := true
+		nLd := 0
+		for v := range pos {
+			ld, isLd := v.(*ssa.UnOp)
+			if !isLd || ld.Op != token.MUL {
+				continue
+			}
+			if f := core.FieldOf(ld.X); f == curOff || f == c.FieldVar(st+".BitCask", "CurIndex") {
+				nLd++
+				if ld.Parent() == fl[0].call.Parent() && !core.Dominates(fl[0].call, ld) {
+					okAfter = false
 				}
 			}
-			c.Check("checkAndFlush:FileUtilsFlush(CurOffset,data)→length", "value-flow", ok, ff[0].Pos(), "the record is flushed at the bitcask cursor and the flushed length is handed back")
 		}
-		// the index primitives pass the LevelDB error on
-		dbPut := c.Method(ldb+".DatabasePutter", "Put")
-		propagated(c, c.Fn(ldb+".SetPos"), 1, dbPut)
-		propagated(c, c.Fn(ldb+".SetCurrentPos"), 1, dbPut)
-		propagated(c, c.Fn(ldb+".SetCurrentBlock"), 1, dbPut)
+		c.Check("BitCask.Put:cursor-read-after-checkAndFlush", "order", okAfter && nLd >= 2, sp[0].call.Pos(), "the cursor fields that make up the index position are loaded after checkAndFlush returned")
+		cur := sc[0].sliceAlong(argN(sc[0].call, 2))
+		c.Check("BitCask.Put:SetCurrentPos(CurOffset|CurIndex)", "value-flow", core.SliceHasField(cur, curOff), sc[0].call.Pos(), "the persisted cursor is computed from BitCask.CurOffset")
+	}
+	// checkAndFlush: flush heeded, at the cursor, length handed back
+	cf := c.Fn(st + ".BitCask.checkAndFlush")
+	flushObj := c.FuncObj(st + ".FileUtilsFlush")
+	ff := heeded(c, cf, flushObj, core.ErrNonNil, 1, nil)
+	if len(ff) == 1 {
+		length := core.ResultValues(ff[0])[0]
+		ok := core.SliceHasField(core.Slice(argN(ff[0], 1)), curOff) && len(cf.Params) == 2 && core.Slice(argN(ff[0], 2))[cf.Params[1]]
+		for _, r := range realReturns(cf) {
+			if core.ClassifyReturn(r, nil, nil) != core.RetFailure && (length == nil || !core.Derived(length)[core.RetVal(r, 0)]) {
+				ok = false
+			}
+		}
+		c.Check("checkAndFlush:FileUtilsFlush(CurOffset,data)→length", "value-flow", ok, ff[0].Pos(), "the record is flushed at the bitcask cursor and the flushed length is handed back")
+	}
+	// the index primitives pass the LevelDB error on
+	dbPut := c.Method(ldb+".DatabasePutter", "Put")
+	propagated(c, c.Fn(ldb+".SetPos"), 1, dbPut)
+	propagated(c, c.Fn(ldb+".SetCurrentPos"), 1, dbPut)
+	propagated(c, c.Fn(ldb+".SetCurrentBlock"), 1, dbPut)
 }
